@@ -260,3 +260,44 @@ func VerifC16Builders(optBits int) {
 	}
 	verifReach("end")
 }
+
+// VerifC16ModsReuse: the caller's modifier list lives in a slice with spare capacity and is used
+// for two builder calls (a rapid-commit SOLICIT answered with the first part of the list, then a
+// REQUEST answered with the whole list): the list is still the caller's afterwards and the second
+// reply carries what the caller's modifiers put there.
+func VerifC16ModsReuse(which int) {
+	cidLL, sidLL := verifBytes("client.ll", 6), verifBytes("server.ll", 6)
+	var iaid [4]byte
+	copy(iaid[:], verifBytes("iaid", 4))
+	sol := &Message{MessageType: MessageTypeSolicit}
+	copy(sol.TransactionID[:], verifBytes("xid", 3))
+	sol.AddOption(OptClientID(&DUIDLL{HWType: 1, LinkLayerAddr: cidLL}))
+	sol.AddOption(&OptionGeneric{OptionCode: OptionRapidCommit})
+	req := &Message{MessageType: MessageTypeRequest, TransactionID: sol.TransactionID}
+	req.AddOption(OptClientID(&DUIDLL{HWType: 1, LinkLayerAddr: cidLL}))
+	req.AddOption(OptServerID(&DUIDLL{HWType: 1, LinkLayerAddr: sidLL}))
+	mods := make([]Modifier, 0, 8)
+	mods = append(mods, WithServerID(&DUIDLL{HWType: 1, LinkLayerAddr: sidLL}), WithDNS(net.IP(verifBytes("dns", 16))), WithIANA(OptIAAddress{IPv6Addr: net.IP(verifBytes("addr", 16))}))
+	var first *Message
+	var err error
+	switch which {
+	case 0:
+		first, err = NewReplyFromMessage(sol, mods[:2]...)
+	case 1:
+		first, err = NewAdvertiseFromSolicit(sol, mods[:2]...)
+	default:
+		first, err = NewReplyFromMessage(req, mods[:2]...)
+	}
+	verifAssert(err == nil && first != nil, "builder-succeeds")
+	second, err := NewReplyFromMessage(req, mods...)
+	verifAssert(err == nil && second != nil, "builder-succeeds")
+	if second == nil {
+		return
+	}
+	sm := second
+	verifAssert(sm.Options.OneIANA() != nil, "callers-modifiers-are-applied")
+	verifAssert(len(sm.Options.DNS()) == 1, "callers-modifiers-are-applied")
+	verifAssert(sm.GetOneOption(OptionRapidCommit) == nil, "no-rapid-commit-in-the-reply-to-a-request")
+	verifAssert(sm.Options.ServerID() != nil && sm.Options.ClientID() != nil, "identifiers-echoed")
+	verifReach("end")
+}
